@@ -28,6 +28,36 @@ package decorator
 //@ rel[C18] "volume" assume subinvv(mu)
 //@ rel[C18] "volume" ensures len(second(result)) == len(result) && (forall k :: 0 <= k && k < len(result) ==> second(result)[k] == result[k])
 
+// ---- the two decorators whose closure state is a price, as state machines over (wrapped actions, closings) --------
+// nlB(a,c,k): NoLoss purchase close after k inputs, nlA(a,c,k): its action for input k; slB/slA(a,c,p,k): StopLoss stop
+// level / action with percentage p. Scaling the closings by lam > 0 scales the state and leaves every action unchanged
+// (induction on k; the comparisons b < c and c <= s are homogeneous, the tests against 0 are scale-invariant)
+//@ lemma nl_scale(a istream, c stream, a2 istream, c2 stream, lam real, k int)
+//@ requires[C18] lam > 0 && 0 <= k && (forall j :: 0 <= j && j < k ==> a2[j] == a[j] && c2[j] == lam * c[j])
+//@ ensures[C18] nlB(a2, c2, k) == lam * nlB(a, c, k)
+//@ induction k
+//@ use mul_cmp(lam, nlB(a, c, k - 1), c[k - 1])
+//@ use mul_cmp(lam, nlB(a, c, k - 1), 0)
+//@ lemma nlA_scale(a istream, c stream, a2 istream, c2 stream, lam real, k int)
+//@ requires[C18] lam > 0 && 0 <= k && (forall j :: 0 <= j && j <= k ==> a2[j] == a[j] && c2[j] == lam * c[j])
+//@ ensures[C18] nlA(a2, c2, k) == nlA(a, c, k)
+//@ use nl_scale(a, c, a2, c2, lam, k)
+//@ use mul_cmp(lam, nlB(a, c, k), c[k])
+//@ use mul_cmp(lam, nlB(a, c, k), 0)
+//@ lemma sl_scale(a istream, c stream, a2 istream, c2 stream, lam real, p real, k int)
+//@ requires[C18] lam > 0 && 0 <= k && (forall j :: 0 <= j && j < k ==> a2[j] == a[j] && c2[j] == lam * c[j])
+//@ ensures[C18] slB(a2, c2, p, k) == lam * slB(a, c, p, k)
+//@ induction k
+//@ use mul_cmp(lam, c[k - 1], slB(a, c, p, k - 1))
+//@ use mul_cmp(lam, slB(a, c, p, k - 1), 0)
+//@ use mul_assoc(lam, c[k - 1], 1 - p)
+//@ lemma slA_scale(a istream, c stream, a2 istream, c2 stream, lam real, p real, k int)
+//@ requires[C18] lam > 0 && 0 <= k && (forall j :: 0 <= j && j <= k ==> a2[j] == a[j] && c2[j] == lam * c[j])
+//@ ensures[C18] slA(a2, c2, p, k) == slA(a, c, p, k)
+//@ use sl_scale(a, c, a2, c2, lam, p, k)
+//@ use mul_cmp(lam, c[k], slB(a, c, p, k))
+//@ use mul_cmp(lam, slB(a, c, p, k), 0)
+
 //@ func NoLossStrategy.Compute
 //@ requires consumed(snapshots) == 0 && (forall k :: 0 <= k && k < len(snapshots) ==> snapshots[k].Close > 0)
 //@ ensures[C05,C07] len(result) == len(snapshots)
@@ -35,12 +65,26 @@ package decorator
 //@ ensures[C03] consumed(snapshots) == len(snapshots) && closed(result)
 //@ ensures[C04] forall k :: 0 <= k && k < len(result) ==> hor(result, k) <= hor(snapshots, k)
 //@ lit#0 invariant boughtAt >= 0
+//@ lit#0 invariant[C18] boughtAt == nlB(innerActions, closings, calls)
+//@ lit#0 yields[C18] nlA(innerActions, closings, calls)
 //@ lit#0 ensures[C07] "range" 0 - 1 <= ret && ret <= 1
 //@ lit#0 ensures[C07] "buy-remembers-purchase-close" ret == 1 ==> old(boughtAt) == 0 && action == 1 && boughtAt == closing
 //@ lit#0 ensures[C07] "never-sells-at-or-below-purchase-close" ret == 0 - 1 ==> old(boughtAt) != 0 && closing > old(boughtAt) && action == 0 - 1 && boughtAt == 0
 //@ lit#0 ensures[C07] "hold-keeps-position" ret == 0 ==> boughtAt == old(boughtAt)
 //@ lit#0 ensures[C07] "passes-buy-when-in-cash" action == 1 && old(boughtAt) == 0 ==> ret == 1
 //@ lit#0 ensures[C07] "passes-profitable-sell" action == 0 - 1 && old(boughtAt) != 0 && closing > old(boughtAt) ==> ret == 0 - 1
+//@ rel[C18] "price" param lam real
+//@ rel[C18] "price" assume lam > 0 && len(second(snapshots)) == len(snapshots) && (forall k :: 0 <= k && k < len(snapshots) ==> pscaled(second(snapshots)[k], snapshots[k], lam))
+//@ rel[C18] "price" assume subinv(lam)
+//@ rel[C18] "price" step len(second(innerActions)) == len(innerActions) && len(second(closings)) == len(closings) && (forall j :: 0 <= j && j < len(innerActions) ==> second(innerActions)[j] == innerActions[j]) && (forall j :: 0 <= j && j < len(closings) ==> second(closings)[j] == lam * closings[j])
+//@ rel[C18] "price" use forall k :: nlA_scale(innerActions, closings, second(innerActions), second(closings), lam, k)
+//@ rel[C18] "price" ensures len(second(result)) == len(result) && (forall k :: 0 <= k && k < len(result) ==> second(result)[k] == result[k])
+//@ rel[C18] "volume" param mu real
+//@ rel[C18] "volume" assume mu > 0 && len(second(snapshots)) == len(snapshots) && (forall k :: 0 <= k && k < len(snapshots) ==> vscaled(second(snapshots)[k], snapshots[k], mu))
+//@ rel[C18] "volume" assume subinvv(mu)
+//@ rel[C18] "volume" step len(second(innerActions)) == len(innerActions) && len(second(closings)) == len(closings) && (forall j :: 0 <= j && j < len(innerActions) ==> second(innerActions)[j] == innerActions[j]) && (forall j :: 0 <= j && j < len(closings) ==> second(closings)[j] == 1 * closings[j])
+//@ rel[C18] "volume" use forall k :: nlA_scale(innerActions, closings, second(innerActions), second(closings), 1, k)
+//@ rel[C18] "volume" ensures len(second(result)) == len(result) && (forall k :: 0 <= k && k < len(result) ==> second(result)[k] == result[k])
 
 //@ func StopLossStrategy.Compute
 //@ requires consumed(snapshots) == 0 && 0 <= s.Percentage && s.Percentage < 1 && (forall k :: 0 <= k && k < len(snapshots) ==> snapshots[k].Close > 0)
@@ -49,12 +93,26 @@ package decorator
 //@ ensures[C03] consumed(snapshots) == len(snapshots) && closed(result)
 //@ ensures[C04] forall k :: 0 <= k && k < len(result) ==> hor(result, k) <= hor(snapshots, k)
 //@ lit#0 invariant stopLossAt >= 0
+//@ lit#0 invariant[C18] stopLossAt == slB(innerActions, closings, s.Percentage, calls)
+//@ lit#0 yields[C18] slA(innerActions, closings, s.Percentage, calls)
 //@ lit#0 ensures[C07] "range" 0 - 1 <= ret && ret <= 1
 //@ lit#0 ensures[C07] "buy-sets-stop-level" ret == 1 ==> old(stopLossAt) == 0 && action == 1 && stopLossAt == closing * (1 - s.Percentage) && stopLossAt > 0
 //@ lit#0 ensures[C07] "sells-at-first-close-at-or-below-stop" old(stopLossAt) != 0 && closing <= old(stopLossAt) ==> ret == 0 - 1
 //@ lit#0 ensures[C07] "passes-sell-when-invested" old(stopLossAt) != 0 && action == 0 - 1 ==> ret == 0 - 1
 //@ lit#0 ensures[C07] "sell-only-when-invested" ret == 0 - 1 ==> old(stopLossAt) != 0 && stopLossAt == 0 && (action == 0 - 1 || closing <= old(stopLossAt))
 //@ lit#0 ensures[C07] "hold-keeps-position" ret == 0 ==> stopLossAt == old(stopLossAt)
+//@ rel[C18] "price" param lam real
+//@ rel[C18] "price" assume lam > 0 && len(second(snapshots)) == len(snapshots) && (forall k :: 0 <= k && k < len(snapshots) ==> pscaled(second(snapshots)[k], snapshots[k], lam))
+//@ rel[C18] "price" assume subinv(lam)
+//@ rel[C18] "price" step len(second(innerActions)) == len(innerActions) && len(second(closings)) == len(closings) && (forall j :: 0 <= j && j < len(innerActions) ==> second(innerActions)[j] == innerActions[j]) && (forall j :: 0 <= j && j < len(closings) ==> second(closings)[j] == lam * closings[j])
+//@ rel[C18] "price" use forall k :: slA_scale(innerActions, closings, second(innerActions), second(closings), lam, s.Percentage, k)
+//@ rel[C18] "price" ensures len(second(result)) == len(result) && (forall k :: 0 <= k && k < len(result) ==> second(result)[k] == result[k])
+//@ rel[C18] "volume" param mu real
+//@ rel[C18] "volume" assume mu > 0 && len(second(snapshots)) == len(snapshots) && (forall k :: 0 <= k && k < len(snapshots) ==> vscaled(second(snapshots)[k], snapshots[k], mu))
+//@ rel[C18] "volume" assume subinvv(mu)
+//@ rel[C18] "volume" step len(second(innerActions)) == len(innerActions) && len(second(closings)) == len(closings) && (forall j :: 0 <= j && j < len(innerActions) ==> second(innerActions)[j] == innerActions[j]) && (forall j :: 0 <= j && j < len(closings) ==> second(closings)[j] == 1 * closings[j])
+//@ rel[C18] "volume" use forall k :: slA_scale(innerActions, closings, second(innerActions), second(closings), 1, s.Percentage, k)
+//@ rel[C18] "volume" ensures len(second(result)) == len(result) && (forall k :: 0 <= k && k < len(result) ==> second(result)[k] == result[k])
 
 // ---- reports (C14): every column has one value per date row; rows carry that date's close, annotation, outcome ----
 //@ func InverseStrategy.Report
